@@ -191,7 +191,25 @@ def lonely(kind):
     return f
 
 
+class WeightedOdometry(EdgeOdometry):
+    """A user subclass that overrides ONLY the cost: every chi^2 the library reports for a graph must be the sum of its edges' own calc_chi2()."""
+
+    def calc_chi2(self):
+        return 2.5 * super().calc_chi2() + 0.125
+
+
+def weighted(kind):
+    def f(seed):
+        es, vs, truth = make(kind, seed)
+        for j, e in enumerate(es):
+            if type(e) is EdgeOdometry and j % 2 == 0:
+                e.__class__ = WeightedOdometry
+        return es, vs, truth
+    return f
+
+
 TEMPLATES = {
+    'se2weighted': weighted('SE2'),
     'se2huge': lambda s: make('SE2', s, n_poses=150, n_landmarks=10, closures=40),
     'se2big': lambda s: make('SE2', s, n_poses=24, n_landmarks=4, closures=8),
     'se3big': lambda s: make('SE3', s, n_poses=16, n_landmarks=3, closures=5),
